@@ -188,4 +188,12 @@ MUTANTS = [
          old="            if let Some(default) = default {\n                collect_captured(default, bound, captured, scope);\n            }", new="            let _ = default;"),
     dict(name="capt-harmless-order-of-branches", prop="C08", units=["u_capt"], file="crates/compiler/src/lift.rs", expect=0,
          old="            collect_captured(then_branch, bound, captured, scope);\n            collect_captured(else_branch, bound, captured, scope);", new="            collect_captured(else_branch, bound, captured, scope);\n            collect_captured(then_branch, bound, captured, scope);"),
+    # ---- U-DEPREC
+    dict(name="deprec-records-empty-hash", prop="C15", units=["u_deprec"], file="crates/compiler/src/pipeline/separate.rs", expect=1,
+         old="        dep_hashes.insert(dep, unit.interface_hash.clone());", new="        dep_hashes.insert(dep, String::new());"),
+    dict(name="deprec-env-from-other-unit", prop="C15", units=["u_deprec"], file="crates/compiler/src/pipeline/separate.rs", expect=1, count=2,
+         old="        let unit = load_interface_from_paths(&dep, &opts.interface_paths)?;\n        deps_envs.insert(dep.clone(), unit.exports.to_genv());",
+         new="        let unit = load_interface_from_paths(&dep, &opts.interface_paths)?;\n        let unit2 = load_interface_from_paths(&dep, &opts.interface_paths)?;\n        deps_envs.insert(dep.clone(), unit2.exports.to_genv());"),
+    dict(name="deprec-hash-not-recorded", prop="C15", units=["u_deprec"], file="crates/compiler/src/pipeline/separate.rs", expect=1,
+         old="        dep_hashes.insert(dep.clone(), unit.interface_hash.clone());\n        dep_units.push(unit);", new="        dep_units.push(unit);"),
 ]
